@@ -16,6 +16,7 @@ import (
 	"verif/harness/helpdrv"
 	"verif/harness/injdrv"
 	"verif/harness/launchdrv"
+	"verif/harness/legacydrv"
 	"verif/harness/isolate"
 	"verif/harness/muxdrv"
 	"verif/harness/ocidrv"
@@ -87,6 +88,16 @@ func main() {
 		out := fs.String("out", "", "trace file")
 		fs.Parse(args)
 		if err := setupdrv.Run(*in, *out); err != nil {
+			fail(err)
+		}
+	case "invoke": // the driver executable as a v0.1.0 plugin (X05)
+		os.Exit(legacydrv.PluginMain())
+	case "legacy":
+		fs := flag.NewFlagSet(mod, flag.ExitOnError)
+		in := fs.String("in", "", "scenarios")
+		out := fs.String("out", "", "trace file")
+		fs.Parse(args)
+		if err := legacydrv.Run(*in, *out); err != nil {
 			fail(err)
 		}
 	case "stubsetup-child":
